@@ -21,6 +21,8 @@ CLAIMED = set(open(os.path.join(HERE, "tools", "claimed.txt")).read().split())
 checks = []
 claimed = set()
 for f in sorted(glob.glob(os.path.join(HERE, "props", "c[0-9]*_*.py"))):
+    if os.path.basename(f).split("_")[0].upper() not in CLAIMED:
+        continue
     mod = importlib.import_module("props." + os.path.basename(f)[:-3])
     pid = mod.PROPERTY_ID
     if getattr(mod, "DISABLED", False) or pid not in CLAIMED:
